@@ -101,12 +101,42 @@ pub fn run(ctx: &Ctx) -> Report {
         }
         rep
     });
+    // the same kind of cells on builds of the repository with reduced feature sets (other processes, built by ./check)
+    match std::env::var("VERIF_FEAT_BINS") {
+        Ok(bins) => {
+            let n_seeds = if thorough { 24 } else { 3 };
+            let seed_args: Vec<String> = (0..n_seeds).map(|i| (ctx.seed * 100 + i).to_string()).collect();
+            for item in bins.split(';').filter(|s| !s.is_empty()) {
+                let (name, bin) = item.split_once('=').unwrap_or(("?", item));
+                match std::process::Command::new(bin).args(&seed_args).output() {
+                    Ok(out) if out.status.success() => match serde_json::from_slice::<serde_json::Value>(&out.stdout) {
+                        Ok(v) => {
+                            rep.add(&format!("c17/reduced_features/{}/cells", name), v["cells"].as_u64().unwrap_or(0));
+                            rep.add("c17/reduced_features/log_entries_checked", v["log_entries_checked"].as_u64().unwrap_or(0));
+                            rep.evaluations += v["cells"].as_u64().unwrap_or(0);
+                            for k in v["kinds"].as_array().cloned().unwrap_or_default() {
+                                rep.bump(&format!("c17/reduced_features/{}/{}", name, k.as_str().unwrap_or("?")));
+                            }
+                            for viol in v["violations"].as_array().cloned().unwrap_or_default() {
+                                rep.violate("C17", viol[0].as_str().unwrap_or("?").to_string(), viol[1].as_str().unwrap_or("").to_string(), json!({"engine": "harness-min/route.rs", "build": name, "cell": viol[1]}));
+                            }
+                        }
+                        Err(e) => rep.inconclusive.push(format!("reduced-features run [{}]: unreadable output: {}", name, e)),
+                    },
+                    Ok(out) => rep.inconclusive.push(format!("reduced-features run [{}] failed: {} {}", name, out.status, String::from_utf8_lossy(&out.stderr).chars().take(300).collect::<String>())),
+                    Err(e) => rep.inconclusive.push(format!("reduced-features run [{}] could not start: {}", name, e)),
+                }
+            }
+        }
+        Err(_) => rep.inconclusive.push("VERIF_FEAT_BINS is not set: run this check through ./check, which builds the reduced-features harnesses".into()),
+    }
     rep.rule = RULE.into();
     rep.exhaustive = Some(rep.count("c17/stopped_by_deadline") == 0 && rep.violations.is_empty());
+    rep.assume("the cells above run in this binary (cw-multi-test with staking, stargate, cosmwasm_2_2); a smaller matrix (kind x origin x accepting/failing) runs in vcheck-c17-feat on builds with the feature sets default, cosmwasm_2_0, stargate, staking, staking+stargate+cosmwasm_1_4");
     rep.assume("QueryRequest::Distribution is not generated: the architecture has no module whose query type accepts it");
     rep.assume("CosmosMsg::Custom cannot be expressed by a contract written against Empty; SudoMsg::Custom is unimplemented by design and not exercised");
     rep.assume("wasm messages are routed to the real WasmKeeper (observed through the contracts' trace in C01-C05)");
-    for k in ["c17/configurations", "c17/log_entries_checked", "c17/failed_tx_state_unchanged_checks", "c17/caught_failure_rollback_checks", "c17/reply_data_from_module_checked", "c17/reply_after_module_answer/no-data+no-events", "c17/reply_after_module_answer/data+events", "c17/sudo/staking", "c17/same_submessage_listed_twice", "c17/empty_chain/top/accepting", "c17/empty_chain/contract-with-reply/accepting", "c17/empty_chain/contract/failing", "c17/multi/all-accepted", "c17/multi/message-0-fails", "c17/multi/message-1-fails", "c17/multi/message-2-fails", "c17/builtin/all-accepting/Gov/lifted/accepting", "c17/builtin/all-failing/Any/puppet/failing"] {
+    for k in ["c17/configurations", "c17/log_entries_checked", "c17/failed_tx_state_unchanged_checks", "c17/caught_failure_rollback_checks", "c17/reply_data_from_module_checked", "c17/reply_after_module_answer/no-data+no-events", "c17/reply_after_module_answer/data+events", "c17/sudo/staking", "c17/same_submessage_listed_twice", "c17/empty_chain/top/accepting", "c17/empty_chain/contract-with-reply/accepting", "c17/empty_chain/contract/failing", "c17/multi/all-accepted", "c17/multi/message-0-fails", "c17/multi/message-1-fails", "c17/multi/message-2-fails", "c17/builtin/all-accepting/Gov/lifted/accepting", "c17/builtin/all-failing/Any/puppet/failing", "c17/reduced_features/default/cells", "c17/reduced_features/cosmwasm_2_0/msg:any", "c17/reduced_features/cosmwasm_2_0/query:grpc", "c17/reduced_features/stargate/msg:gov", "c17/reduced_features/staking/msg:distribution", "c17/reduced_features/staking+stargate+cosmwasm_1_4/cells"] {
         rep.require(k);
     }
     rep
